@@ -55,7 +55,8 @@ Theorem C04_cofactor_rec fuel s u ord values cache r s' :
   match r with
   | Ok (x, cache') => valid s' x ∧ lvl_of s u ≤ lvl_of s' x ∧ cache_ok s' values cache' ∧
         ∀ a, D s' x a = D s u (override values a)
-  | Err e => e = ENeedsReordering ∧ is_Some (last_len s)
+  | Err e => (e = ENeedsReordering ∧ is_Some (last_len s)) ∨
+               (e = ERuntime ∧ is_Some (max_nodes s))
   end.
 Proof. exact (cofactor_rec_spec fuel s u ord values cache r s'). Qed.
 
@@ -68,7 +69,7 @@ Proof. exact (map_to_level_dict_state byname kv s r s'). Qed.
     level, in any order, with duplicates; [lv] is the level dictionary that
     [_map_to_level] computed. *)
 Theorem C04_cofactor_correct s u byname values lv r s' :
-  Inv s → valid s u → last_len s = None →
+  Inv s → valid s u → last_len s = None → max_nodes s = None →
   map_to_level_dict byname values (s <| rctx := true |>) = (Ok lv, s <| rctx := true |>) →
   cofactor u byname values s = (r, s') →
   ∃ x, r = Ok x ∧ Inv s' ∧ extends s s' ∧ valid s' x ∧
@@ -88,7 +89,8 @@ Theorem C04_compose_rec fuel s f_ j g cache r s' :
   | Ok (x, cache') => valid s' x ∧
         lvl_of s f_ `min` lvl_of s g ≤ lvl_of s' x ∧ cache_ok_c s' j cache' ∧
         ∀ a, D s' x a = D s f_ (upd a j (D s g a))
-  | Err e => e = ENeedsReordering ∧ is_Some (last_len s)
+  | Err e => (e = ENeedsReordering ∧ is_Some (last_len s)) ∨
+               (e = ERuntime ∧ is_Some (max_nodes s))
   end.
 Proof. exact (compose_rec_spec fuel s f_ j g cache r s'). Qed.
 
@@ -98,7 +100,7 @@ Proof. exact (compose_fuel_ok s f_ g). Qed.
 
 (** the public [compose] with a single substitution [{var: g}] *)
 Theorem C04_compose_single_correct s f_ var g j r s' :
-  Inv s → valid s f_ → valid s g → last_len s = None →
+  Inv s → valid s f_ → valid s g → last_len s = None → max_nodes s = None →
   vars s !! var = Some j →
   compose f_ [(var, g)] s = (r, s') →
   ∃ x, r = Ok x ∧ Inv s' ∧ extends s s' ∧ valid s' x ∧
@@ -118,6 +120,7 @@ Example C04a_nonvacuous :
   let asg (n : nat) : nat → bool := Nat.testbit n in
   let all (P : (nat → bool) → bool) := forallb (fun n => P (asg n)) (seq 0 8) in
   mem 7 s = true ∧ mem 5 s = true ∧ mem 4 s = true ∧ last_len s = None ∧
+  max_nodes s = None ∧
   vars s !! 1 = Some 1 ∧
   match fst (map_to_level_dict true [(1, true)] (s <| rctx := true |>)) with
   | Ok lv => map_to_list lv = [(1, true)]
